@@ -2,14 +2,12 @@ CONSTANT T <- T8
 CONSTANT NLeaves = 3
 CONSTANT MaxUn = 1
 CONSTANT WithConst = TRUE
-CONSTANT Shard = 0
+CONSTANT Shard = 3
 CONSTANT NShards = 16
-CONSTANT Emit = TRUE
+CONSTANT BumpGuard = TRUE
 INIT Init
 NEXT Next
-INVARIANT TokLemma
-INVARIANT OneLemma
-INVARIANT TextLemma
-INVARIANT EmitCases
+INVARIANT Refines
+INVARIANT RefinesOne
+INVARIANT Shrinks
 CHECK_DEADLOCK FALSE
-CONSTANT FullText = FALSE
